@@ -46,9 +46,10 @@ class BoxCommand(Command):
     args = 'self'
     mathMode = False
     def parse(self, tex):
-        MathShift.inEnv.append(None)
+        inEnv = MathShift.envStack(self.ownerDocument)
+        inEnv.append(None)
         Command.parse(self, tex)
-        MathShift.inEnv.pop()
+        inEnv.pop()
         return self.attributes
 
 class hbox(BoxCommand): pass
@@ -66,6 +67,21 @@ class MathShift(Command):
     macroName = 'active::$'
     inEnv = []
 
+    @staticmethod
+    def envStack(document):
+        """
+        Stack of math environments currently open in `document`
+
+        This is kept per document: math left open at the end of one
+        document must not change how `$` is read in the next one.
+        """
+        context = document.context
+        try:
+            return context.mathShiftEnvStack
+        except AttributeError:
+            context.mathShiftEnvStack = []
+            return context.mathShiftEnvStack
+
     def invoke(self, tex):
         r"""
         This gets a bit tricky because we need to keep track of both
@@ -73,7 +89,7 @@ class MathShift(Command):
         account \mbox{}es.
 
         """
-        inEnv = type(self).inEnv
+        inEnv = self.envStack(self.ownerDocument)
 
         current = self.ownerDocument.createElement('math')
         for t in tex.itertokens():
